@@ -92,7 +92,9 @@ def c15_r1(ctx):
     # digest returned is the one fed
     dv = f.vars_of_operand(inp.args[0])
     for (bb, idx, rv, pl) in f.constructs("ticket::TicketFactory"):
-        if f.vars_of_operand(rv["ops"][0]) != dv:
+        got = f.vars_of_operand(rv["ops"][0])
+        fam = {o for o in f.var_family(rv["ops"][0]) if o[0][0] == "var" and len(o) == 1}
+        if got != dv and not (dv and dv <= fam):
             ctx.viol((f.id, "other-digest-returned"), "the factory returned does not hold the digest that was fed", f.where(bb, idx))
     ctx.ok()
     # the ticket is the digest's full 32-byte result
@@ -578,6 +580,14 @@ STATUS_CONSTS = {"warp::http::StatusCode::OK": "OK", "warp::http::StatusCode::NO
                  "warp::http::StatusCode::INTERNAL_SERVER_ERROR": "INTERNAL_SERVER_ERROR"}
 
 
+class _Site:
+    """A place where a status code is decided (the call itself, or the assignment of the constant)."""
+    def __init__(self, call, bb, fn):
+        self.call = call
+        self.bb = bb
+        self.where = fn.where(bb) if bb != call.bb else call.where
+
+
 def _status_of_call(cl, c):
     """For a `Builder::status(builder, CODE)` call, the code's name."""
     if not c.path.endswith("Builder::status"):
@@ -593,6 +603,81 @@ def _status_of_call(cl, c):
     return "dynamic"
 
 
+def _const_status(a):
+    t = a.get("item") or a.get("text", "")
+    if "StatusCode::" in t:
+        nm = t.split("StatusCode::")[-1]
+        if nm in ("OK", "NOT_FOUND", "INTERNAL_SERVER_ERROR"):
+            return nm
+    return "other:" + t
+
+
+def _status_sites(cl, c):
+    """Where the code of a `Builder::status(builder, CODE)` call is decided: [(code, block)].
+    A literal code is decided at the call; a code that is data (`let (status, text) = match r
+    { Ok(s) => (OK, s), Err(m) => (NOT_FOUND, m) }`) is decided where each constant is written."""
+    if not c.path.endswith("Builder::status"):
+        return []
+    a = c.args[1]
+    if a["k"] == "const":
+        return [(_const_status(a), c.bb)]
+
+    def fields_of(proj):
+        out = []
+        for e in proj:
+            if e["k"] == "field":
+                out.append(e["i"])
+            elif e["k"] == "deref":
+                continue
+            else:
+                return None
+        return tuple(out)
+    seen = set()
+
+    def from_op(op, rest, bb, depth):
+        if op["k"] == "const":
+            return [(_const_status(op), bb)] if not rest else [("dynamic", bb)]
+        fl = fields_of(op["place"]["proj"])
+        if fl is None:
+            return [("dynamic", bb)]
+        return chase(op["place"]["local"], fl + rest, depth + 1)
+
+    def chase(local, path, depth):
+        if depth > 8 or (local, path) in seen:
+            return [("dynamic", c.bb)]
+        seen.add((local, path))
+        out = []
+        defs = cl.defs.get(local, ())
+        if not defs:
+            return [("dynamic", c.bb)]
+        for (kind, bb, idx, place, payload) in defs:
+            if kind != "assign":
+                out.append(("dynamic", bb))
+                continue
+            lhs = fields_of(place["proj"])
+            if lhs is None:
+                out.append(("dynamic", bb))
+                continue
+            if lhs:
+                if path[:len(lhs)] != lhs:
+                    continue
+                rest = path[len(lhs):]
+            else:
+                rest = path
+            rv = payload
+            if rv["k"] == "use":
+                out += from_op(rv["op"], rest, bb, depth)
+            elif rv["k"] == "aggregate" and rv["kind"]["k"] in ("tuple", "adt") and rest and rest[0] < len(rv["ops"]):
+                out += from_op(rv["ops"][rest[0]], rest[1:], bb, depth)
+            else:
+                out.append(("dynamic", bb))
+        return out or [("dynamic", c.bb)]
+    fl = fields_of(a["place"]["proj"])
+    if fl is None:
+        return [("dynamic", c.bb)]
+    return chase(a["place"]["local"], fl, 0)
+
+
 def _statuses_after(cl, edges):
     """Status codes of the responses built on paths that start with one of `edges` (up to the
     next return)."""
@@ -600,9 +685,10 @@ def _statuses_after(cl, edges):
     r = cl.reach([x for (_, x) in edges])
     for b in r:
         if b in cl.call_at:
-            s = _status_of_call(cl, cl.call_at[b])
-            if s and cl.dominated_by_edges(b, edges):
-                out.add(s)
+            for (code, site) in _status_sites(cl, cl.call_at[b]):
+                # the code is decided on a path that starts with one of the edges
+                if site in r:
+                    out.add(code)
     return out
 
 
@@ -663,8 +749,9 @@ def c19_r3(ctx):
                 lookups.append(c)
         gets = [c for c in cl.calls if c.path == "history::RuleHistory::get_file_state_vec"]
         reads = [c for c in cl.calls if c.path == "std::io::Read::read_to_end"]
-        for s in stat:
-            code = _status_of_call(cl, s)
+        for s0 in stat:
+          for (code, sbb) in _status_sites(cl, s0):
+            s = _Site(s0, sbb, cl)
             ctx.inst("%s in %s" % (code, cl.id), s.where)
             if code == "OK":
                 need = []
@@ -1017,19 +1104,24 @@ def c16_r4(ctx):
     for c in de:
         f = c.fn
         ctx.inst("decoded buffer in %s" % f.id, c.where)
+        fam = {o for o in f.var_family(c.args[0]) if o[0][0] == "var" and len(o) == 1}
         buf = f.vars_of_operand(c.args[0])
+
+        def is_buf(op):
+            v = f.vars_of_operand(op)
+            return v == buf or (bool(v) and v <= fam)
         writers = []
         for x in f.calls:
             if not x.args or x is c:
                 continue
-            if f.vars_of_operand(x.args[0]) == buf or (len(x.args) > 1 and f.vars_of_operand(x.args[1]) == buf):
+            if is_buf(x.args[0]) or (len(x.args) > 1 and is_buf(x.args[1])):
                 if erase_generics(x.path) in ("std::vec::Vec::new", "std::ops::Deref::deref", "std::vec::Vec::len"):
                     continue
                 writers.append(x)
         ok = True
         n_fill = 0
         for x in writers:
-            if x.path == "std::io::Read::read_to_end" and f.vars_of_operand(x.args[1]) == buf:
+            if x.path == "std::io::Read::read_to_end" and is_buf(x.args[1]):
                 fo = f.origins_of_operand(x.args[0])
                 if all(is_call(o, "system::System::open") and o[1:] == (("variant", "Ok"), ("field", 0)) for o in fo) and fo:
                     n_fill += 1
